@@ -57,7 +57,7 @@ func (c c03) Decode(raw json.RawMessage) (any, error) {
 	return &s, err
 }
 
-var c03Sizes = []int{0, 8, 40, 200, 900, 1100, 4000, 11000}
+var c03Sizes = []int{0, 8, 40, 200, 900, 1100, 4000, 11000, 11000, 17000, 40000, 70000}
 
 func (c c03) Gen(rt *rapid.T, thorough bool) any {
 	s := &C03Scn{Knobs: genKnobs(rt)}
